@@ -82,12 +82,24 @@ def placeholder_items():
     return items
 
 
+def crate_configs(tier):
+    return [{"name": ID.lower()}, {"name": ID.lower() + "probe", "kind": "genprobe"}]
+
+
+def query_in_config(cfg, kind, args):
+    return (kind == "struct") == (cfg.get("kind") == "genprobe")
+
+
+probe_command = S.struct_probe_command
+
+
 def build_corpus(tier, rng):
     c = Corpus(ID)
     thorough = tier == "thorough"
     specs = G.spec_grid(rng, n=(None if thorough else 60), full=thorough)
     for it in fixed_items():
         k = c.add_def(it, family="fixed", derives=["Display"])
+        c.add_q(k, "struct", ["Display"], note="structure")
         vals = RR.sample_values(it)
         c.meta[k]["vals"] = vals
         for j, (i, _, tag) in enumerate(vals):
@@ -97,6 +109,7 @@ def build_corpus(tier, rng):
                 c.add_q(k, "display", [j, i] + sp, note="fixed")
     for it in placeholder_items():
         k = c.add_def(it, family="placeholders", derives=["Display"])
+        c.add_q(k, "struct", ["Display"], note="structure")
         vals = []
         for i, v in enumerate(it.variants):
             vals.append((i, [RR.SAMPLE[f.ty][0] for f in v.fields], "sample"))
@@ -114,7 +127,13 @@ def render_def(k, it, meta, cfg):
     return S.render_strings(k, it, meta, cfg)
 
 
+def extra_coverage(corpus, tier):
+    return S.struct_coverage()
+
+
 def compare(corpus, k, kind, args, note, iobs, mobs, cfg):
+    if kind == "struct":
+        return S.compare_struct(corpus, k, iobs, mobs)
     ok, nt, detail = S.compare_strings(corpus, k, kind, args, note, iobs, mobs, cfg)
     fam = corpus.meta[k]["family"]
     if fam == "placeholders" and not mobs.startswith("args"):
